@@ -114,7 +114,7 @@ def observe_river(gridmod, flowdir, s, nval):
     return cells, lens, df
 
 
-def observe_acc(gridmod, Grid, nr, nc, fd, w, nprint=100, flow=None, bounded=False):
+def observe_acc(gridmod, Grid, nr, nc, fd, w, nprint=100, flow=None, bounded=False, nodata=-999):
     """bounded: the input grids carry user bounds (mindata / maxdata) equal to the range of their own values: the inputs are
     unchanged by that, and accumulated sums are not input values - they are not subject to the inputs' bounds"""
     if flow is None:
@@ -123,7 +123,7 @@ def observe_acc(gridmod, Grid, nr, nc, fd, w, nprint=100, flow=None, bounded=Fal
             flow.mindata, flow.maxdata = min(fd), max(fd)
     field = None
     if w is not None:
-        field = Grid("w", nc, nr, dtype=np.float64, nodata=-999)
+        field = Grid("w", nc, nr, dtype=np.float64, nodata=nodata)
         field.data = np.array(w, dtype=float).reshape(nr, nc)
         if bounded:
             field.mindata, field.maxdata = min(w), max(w)
@@ -211,6 +211,8 @@ def replay_grid_c06(ctx, gridmod, c, stats):
 
 
 FIELDS = ["unit", "pow", "signed"]
+# no-data values of the accumulated field: also values that partial sums of the fields take (0, small integers)
+NODATAS = [-999, 0, -1, 2, 3, 1, 11]
 SNAKES = [(5, 5), (3, 9), (4, 6), (6, 5), (7, 4), (2, 8)]
 
 
@@ -234,7 +236,9 @@ def replay_grid_c11(ctx, gridmod, c, stats):
             try:
                 out, same, acc = observe_acc(gridmod, Grid, nr, nc, fd, None if default else w,
                                              nprint=[100, 1, 0, 3][(stats["accs"] + k) % 4],
-                                             flow=shared_flow if (stats["accs"] % 2) else None, bounded=(stats["accs"] % 3 == 2))
+                                             flow=shared_flow if (stats["accs"] % 2) else None, bounded=(stats["accs"] % 3 == 2),
+                                             nodata=NODATAS[stats["accs"] % len(NODATAS)])
+                nod_used = None if default else NODATAS[stats["accs"] % len(NODATAS)]
             except TimeoutError as e:
                 ctx.violation("accumulate:hang", str(e), dict(case, field=kind))
                 return
@@ -254,8 +258,10 @@ def replay_grid_c11(ctx, gridmod, c, stats):
                 g = out[cell]
                 if e == -999:
                     ok = g == "nodata"
+                elif g == "nodata":
+                    ok = nod_used is not None and e == nod_used       # a legitimate sum that happens to equal the no-data value
                 else:
-                    ok = g != "nodata" and abs(g - e) <= 1e-9 * max(1, abs(e))
+                    ok = abs(g - e) <= 1e-9 * max(1, abs(e))
                 if not ok:
                     ctx.violation("accumulate:%s-field" % ("uniform" if kind == "unit" else "non-uniform"),
                                   "cell %d: accumulated %s expected %s" % (cell, g, "nodata" if e == -999 else e),
